@@ -57,6 +57,16 @@ CHECKS = {
         ref="5/C10", note=ACN_NOTE + " Shift k is a multiple of max_recompute; distinct priority keys for sorted schedulers."),
 }
 
+CHECKS["C13"] = dict(
+    text="EVSE.tla models one station (continuous, deadband, finite-rate) with plugin/unplug/set_pilot as actions; "
+         "TLC checks AdvertisedAccepted, PilotIsValid and that refused calls change nothing, for every call sequence "
+         "within the bound. Every sequence TLC enumerates (pilots at each boundary +-{0,.5,.9,1.1,2}e-3 A) is replayed "
+         "through the real EVSE classes, the network cache and the Interface accessors, comparing outcome, pilot, "
+         "occupant, EV energy and battery charge after each call.",
+    tech="TLA+ spec (EVSE.tla) + TLC invariants/action properties + exhaustive spec-to-code replay",
+    ref="5/C13", note="Trusted: TLC, replay harness. Probes never sit exactly on +-1e-3 A (undecidable in floats); "
+                      "accepted negative pilots only on a vacant station.")
+
 NOT_APPLICABLE = []
 
 
